@@ -16,6 +16,9 @@ SHAPES = {
     "two-chains-2-2-merge": "-|0|1|0|3|2,4",    # two branches of length 2 joined by a merge commit
     "diamond-tail": "-|0|0|1,2|3|1",            # diamond c3(c1,c2), tail c4, late fork c5 on c1
     "three-branches": "-|0|1|0|0|4",            # heads of heights 3,2,3
+    # a long and a short branch joined by a merge commit, then a late commit on the short branch: the walk back
+    # from the merge commit passes three generations before it meets the late commit's parent again
+    "long-short-merge-late-fork": "-|0|1|2|3|0|4,5|5",
 }
 
 
@@ -33,7 +36,8 @@ def merge_jobs(tier, prop="C02"):
     for sn, dag in SHAPES.items():
         for kind, kn in ((1, "counter"),) if tier == "quick" else ((1, "counter"), (0, "register")):
             js.append({"id": f"deliver.{kn}.{sn}", "func": "VerifH_C02_Deliver",
-                       "conf": {"n": 6, "kind": kind, "del": -1, "deliveries": 3 if tier == "quick" else 4, "hasfield": 1, "class": 2,
+                       "conf": {"n": dag.count("|") + 1, "kind": kind, "del": -1,
+                                "deliveries": (2 if dag.count("|") >= 7 else 3) if tier == "quick" else (3 if dag.count("|") >= 7 else 4), "hasfield": 1, "class": 2,
                                 "dag": dag, "orders": "two", "shortid": 0},
                        "_obligation": "O1-O3", "_covers": ["delivered"], "unwind": 60, "reset_mode": True})
     js.append({"id": "twin", "func": "VerifH_C02_Reach", "conf": {"dag": "", "orders": "all", "shortid": 0}, "_obligation": "vacuity", "_expect": "twin", "_covers": ["end"]})
